@@ -18,7 +18,6 @@ import (
 
 	"github.com/els0r/goProbe/v4/cmd/goProbe/config"
 	"github.com/els0r/goProbe/v4/pkg/capture"
-	"github.com/els0r/goProbe/v4/pkg/capture/capturetypes"
 	"github.com/els0r/goProbe/v4/pkg/goDB/storage/gpfile"
 	"github.com/els0r/goProbe/v4/pkg/types"
 	"github.com/els0r/goProbe/v4/pkg/types/hashmap"
@@ -44,7 +43,7 @@ type Block struct {
 // "dropped" are the source's numbers and not part of it).
 type StatusResult struct {
 	Processed, ProcessedTotal uint64
-	ParsingErrors                       [3]int
+	ParsingErrors             [3]int
 }
 
 // EventResult is the observable result of a status or live-query action.
@@ -82,7 +81,6 @@ type runState struct {
 	res       *Result
 	err       error
 	consumedM map[int]bool
-	event     int
 }
 
 func (r *runState) fail(err error) {
@@ -99,10 +97,10 @@ func (r *runState) overflows(iface string) int {
 	defer r.mu.Unlock()
 	return r.res.Overflows[iface]
 }
-func (r *runState) consumed(s *Source, p *Packet, where string) {
+func (r *runState) consumed(s *Source, ws *winState, p *Packet, where string) {
 	r.mu.Lock()
 	r.consumedM[p.ID] = true
-	r.res.InWindow = append(r.res.InWindow, Consumed{P: p, Where: where, Event: s.winEvent, Iface: s.idx})
+	r.res.InWindow = append(r.res.InWindow, Consumed{P: p, Where: where, Event: ws.event, Iface: s.idx})
 	r.mu.Unlock()
 }
 func (r *runState) wasConsumed(p *Packet) bool {
@@ -110,14 +108,14 @@ func (r *runState) wasConsumed(p *Packet) bool {
 	defer r.mu.Unlock()
 	return r.consumedM[p.ID]
 }
-func (r *runState) lost(s *Source, p *Packet) {
+func (r *runState) lost(s *Source, ws *winState, p *Packet) {
 	r.mu.Lock()
-	r.res.Lost = append(r.res.Lost, Consumed{P: p, Event: s.winEvent, Iface: s.idx})
+	r.res.Lost = append(r.res.Lost, Consumed{P: p, Event: ws.event, Iface: s.idx})
 	r.mu.Unlock()
 }
-func (r *runState) deferPkt(s *Source, p *Packet) {
+func (r *runState) deferPkt(s *Source, ws *winState, p *Packet) {
 	r.mu.Lock()
-	r.res.Deferred = append(r.res.Deferred, Consumed{P: p, Event: s.winEvent, Iface: s.idx})
+	r.res.Deferred = append(r.res.Deferred, Consumed{P: p, Event: ws.event, Iface: s.idx})
 	r.mu.Unlock()
 }
 
@@ -558,5 +556,3 @@ func readDay(ifaceDir string, dayTs int64, suffix string) ([]Block, error) {
 	}
 	return out, nil
 }
-
-var _ = capturetypes.ErrnoOK
